@@ -594,10 +594,14 @@ class C01:
                         return res
         stats.inc("allocations", (ref.get("gc") or {}).get("allocs", 0))
         if any(o_[1] for o_ in ref_outs):
-            # every failing operation of a generated program is wrapped in try/catch: a reference run that ends with an error
-            # means the generator wrote a wrong program (counted by the harness as an invalid case)
+            # every failing operation of a generated program is wrapped in try/catch and every program is written to end
+            # normally: on the unchanged tree no reference run ends with an error (the counter below stays at 0 over all the
+            # seeds tried). A program that fails even when nothing is ever collected has lost a value it captured earlier
+            # (or reads another one in its place), which is the property's statement with the schedule "no collection at all".
             stats.inc("reference_run_ended_with_error")
-            return {"stats": stats, "nontrivial": False, "invalid": "reference run ended with %s" % json.dumps(ref_outs)[:200]}
+            res["violation"] = {"class": "program-fails-without-collection", "msg": "[never-collect] outcomes %s; last events %s" % (
+                json.dumps(ref_outs)[:200], json.dumps(ref_events[-3:])[:300])}
+            return res
         if ir.get("reset"):
             stats.inc("scenarios_with_reset")
         res["sample"] = {"source_tail": src[len(PRELUDE):], "reference_events": ref_events[:10]}
